@@ -62,4 +62,23 @@ CONTRACTS = {
                             'and basis[q][r] >= 0))',
                             'forall(q, 0, _i0, sum(basis[q], 0, degree + 1) == 1)'])},
     ),
+
+    # all degrees 0..p at once: N[j][i] = B(span - i + j, i) for j <= i  (calls basis_function through its contract)
+    'helpers.basis_function_all': dict(
+        props=['C03'],
+        args=OD([('degree', 'int'), ('knot_vector', ('list', 'real')), ('span', 'int'), ('knot', 'real')]),
+        returns=('list', ('list', 'real')),
+        funcs=FUNCS,
+        requires=['degree >= 0', SORTED_T, 'span >= 0', 'span + 1 - degree >= 0', 'span + degree < len(knot_vector)',
+                  'span + 1 < len(knot_vector)', 'knot_vector[span] < knot_vector[span + 1]',
+                  'knot_vector[span] <= knot', 'knot <= knot_vector[span + 1]'],
+        ensures=['len(result) == degree + 1',
+                 'forall(j, 0, degree + 1, len(result[j]) == degree + 1)',
+                 'forall(i, 0, degree + 1, forall(j, 0, i + 1, result[j][i] == Bf(knot_vector, span, knot, span - i + j, i)))'],
+        loops={0: dict(inv=['len(N) == degree + 1', 'forall(j, 0, degree + 1, len(N[j]) == degree + 1)',
+                            'forall(a, 0, i, forall(j, 0, a + 1, N[j][a] == Bf(knot_vector, span, knot, span - a + j, a)))']),
+               1: dict(inv=['len(N) == degree + 1', 'forall(q, 0, degree + 1, len(N[q]) == degree + 1)',
+                            'forall(a, 0, i, forall(q, 0, a + 1, N[q][a] == Bf(knot_vector, span, knot, span - a + q, a)))',
+                            'forall(q, 0, j, N[q][i] == Bf(knot_vector, span, knot, span - i + q, i))'])},
+    ),
 }
